@@ -720,9 +720,163 @@ def parse_parsable_tabulation(ctx, report):
     return decided
 
 
+def binary_primitive_tabulation(ctx, report):
+    """the byte level primitives of ParserBinary (raw, length prefixed bytes / strings, fixed and SSH multiple precision integers,
+    numbers, flags, timestamps) evaluated from their own statements with the real ``struct`` module on inputs around every boundary -
+    the bytes the call needs exactly present, one short, absent, and with other bytes after them - at cursor 0 and at a later
+    cursor.  A call that returns has advanced the cursor by exactly the octets of the field and never past the end of the input; a
+    call that cannot be served raises NotEnoughData carrying at least 1 and at most the number of octets really missing.
+    Returns the qualified names of the primitives decided this way (the syntactic cursor rule skips them)."""
+    import struct as _struct
+    from ..miniexec import Evaluator, EnumVal, ExcVal, Native, NativeError, Raised, Unsupported, class_call_hook, exception_values
+    model = ctx.model
+    pb = model.cls('ParserBinary')
+    bo = model.try_cls('ByteOrder')
+    if bo is None or not bo.enum_members:
+        return set()
+
+    class State(Native):
+        _repo_class = pb
+
+        def __init__(self, data, offset, order):
+            self._parsable, self._parsed_length, self._parsed_values, self.byte_order = bytearray(data), offset, {}, order
+
+        def __getitem__(self, key):
+            return self._parsed_values[key]
+
+    class Flags(Native):
+        def __iter__(self):
+            return iter([1, 2, 4, 0x80])
+
+        def __call__(self, v):
+            return v
+    exc = exception_values('NotEnoughData', 'InvalidValue', 'TooMuchData', 'InvalidType')
+
+    def extra(n, ev):
+        d = ast.unparse(n.func)
+        if d in ('datetime.datetime.fromtimestamp', 'datetime.datetime.utcfromtimestamp'):
+            import datetime as _dt
+            a = [ev.ev(x) for x in n.args]
+            return _dt.datetime.fromtimestamp(a[0], _dt.timezone.utc)       # OverflowError / ValueError / OSError as the real call
+        if d == 'datetime.timedelta':
+            import datetime as _dt
+            return _dt.timedelta(**{k.arg: ev.ev(k.value) for k in n.keywords})
+        if d in ('ParserBinary', 'type(self)') and n.args:
+            # a parser over derived bytes (the mpint reader builds one over padded words)
+            st = State(bytes(ev.ev(n.args[0])), 0, ev.env['self'].byte_order if isinstance(ev.env.get('self'), State) else order_be)
+            return st
+        return exc(n, ev)
+
+    def names(name):
+        if name == 'int':
+            return int
+        if name == 'struct.error':
+            return _struct.error
+        import datetime as _dt
+        if name == 'dateutil.tz.UTC':
+            return _dt.timezone.utc
+        if name in ('datetime.datetime', 'datetime.timedelta'):
+            return getattr(_dt, name.split('.')[1])
+        raise Unsupported('free name ' + name)
+    hook = class_call_hook(pb, extra, model)
+    nh = hook.name_hook_for(pb.module, names)
+    order_be = EnumVal.of(bo, 'NETWORK') if 'NETWORK' in bo.enum_members else EnumVal.of(bo, list(bo.enum_members)[0])
+
+    def field(kind, *a):
+        """(octets of the call's arguments, needed octets given the data) for the primitive kinds"""
+        return kind, a
+    # (method, keyword arguments, bytes in front of the body that declare its length (0: none), fixed size or None)
+    PLAN = []
+    for size in (1, 2, 3, 4, 8):
+        PLAN.append(('parse_numeric', {'name': 'x', 'size': size}, 0, size))
+    for size in (1, 2, 4):
+        PLAN.append(('parse_numeric_flags', {'name': 'x', 'size': size, 'flags_class': Flags()}, 0, size))
+    for num, isz in ((0, 2), (1, 1), (3, 2), (2, 3), (2, 4)):
+        PLAN.append(('parse_numeric_array', {'name': 'x', 'item_num': num, 'item_size': isz}, 0, num * isz))
+    for size in (0, 1, 5):
+        PLAN.append(('parse_raw', {'name': 'x', 'size': size}, 0, size))
+    for hdr in (1, 2, 3, 4):
+        PLAN.append(('parse_bytes', {'name': 'x', 'size': hdr}, hdr, None))
+        PLAN.append(('parse_string', {'name': 'x', 'item_size': hdr, 'encoding': 'ascii'}, hdr, None))
+    for length in (0, 1, 3, 4, 5, 8, 9):
+        PLAN.append(('parse_mpint', {'name': 'x', 'mpint_length': length}, 0, length))
+    PLAN.append(('parse_ssh_mpint', {'name': 'x'}, 4, None))
+    for isz, ms in ((4, False), (8, False), (8, True)):
+        PLAN.append(('parse_timestamp', {'name': 'x', 'milliseconds': ms, 'item_size': isz}, 0, isz))
+    decided, bad, runs = set(), {}, 0
+    for mname, kw, hdr, fixed in PLAN:
+        f = pb.resolve(mname)
+        if f is None:
+            continue
+        params = [a.arg for a in f.node.args.args if a.arg != 'self']
+        if not set(kw) <= set(params):
+            # renamed parameters: by position
+            kw = dict(zip(params, list(kw.values())))
+        defaults = f.node.args.defaults
+        for prm, dflt in zip(params[len(params) - len(defaults):], defaults):
+            if prm not in kw:
+                try:
+                    kw = dict(kw, **{prm: Evaluator({}, hook, nh).ev(dflt)})
+                except Unsupported:
+                    pass
+        try:
+            for declared in ((0, 1, 3) if hdr else (None,)):
+                body = bytes([0x41 + i for i in range(declared or 0)]) if hdr else b''
+                need = (hdr + declared) if hdr else fixed
+                full = (declared.to_bytes(hdr, 'big') + body) if hdr else bytes([(0x10 + i) & 0x7f for i in range(fixed)])
+                for offset in (0, 2):
+                    for present in sorted({0, max(need - 1, 0), need, need + 3, max(hdr - 1, 0) if hdr else 0}):
+                        data = b'\x7e' * offset + (full + b'\x01\x02\x03')[:present]
+                        me = State(data, offset, order_be)
+                        runs += 1
+                        try:
+                            Evaluator(dict({'self': me}, **kw), hook, nh).function(f.node)
+                            raised = None
+                        except Raised as e:
+                            raised = e
+                        what = '%s(%s) with %d of the %d octets it needs present' % (mname, ', '.join('%s=%r' % (k, v) for k, v in kw.items() if k != 'name' and not isinstance(v, Native)), present, need)
+                        if present >= need:
+                            if raised is not None:
+                                if 'InvalidValue' in raised.what and mname == 'parse_timestamp':
+                                    continue
+                                bad.setdefault(f.qualname, '%s raises %s' % (what, raised.what[:50]))
+                            elif me._parsed_length != offset + need:
+                                bad.setdefault(f.qualname, '%s moves the cursor by %d' % (what, me._parsed_length - offset))
+                        else:
+                            missing_now = need - present if present >= hdr else None      # the length is not known before its prefix is there
+                            if raised is None:
+                                bad.setdefault(f.qualname, '%s returns (cursor %d of %d)' % (what, me._parsed_length, len(data)))
+                            elif 'NotEnoughData' not in raised.what:
+                                bad.setdefault(f.qualname, '%s raises %s instead of NotEnoughData' % (what, raised.what[:40]))
+                            else:
+                                v = raised.value
+                                cnt = (v.kwargs.get('bytes_needed') if isinstance(v, ExcVal) and v.kwargs else (v.args[0] if isinstance(v, ExcVal) and v.args else None))
+                                upper = missing_now if missing_now is not None else hdr - present
+                                if not (isinstance(cnt, int) and 1 <= cnt <= max(upper, 1)) or (missing_now is not None and cnt != missing_now and hdr == 0):
+                                    bad.setdefault(f.qualname, '%s: NotEnoughData carries %r, %s octets are missing' % (what, cnt, upper))
+            decided.add(f.qualname)
+        except Unsupported as e:
+            report.undecided.append('C03.R4: ParserBinary.%s left the subset the evaluation understands (%s); decided on its syntax' % (mname, e))
+    report.count('C03.R4', runs)
+    for q, text in sorted(bad.items()):
+        report.add('C03.R4', '%s@tabulation' % pb.resolve(q.split('.')[-1]).construct, text)
+    if decided:
+        report.sample({'rule': 'C03.R4', 'verdict': 'evaluated with the real struct module', 'primitives': sorted(decided), 'runs': runs})
+    # helpers of the class the decided primitives call are decided with them
+    for q in list(decided):
+        f = pb.resolve(q.split('.')[-1])
+        for n in ast.walk(f.node):
+            if isinstance(n, ast.Call) and isinstance(n.func, ast.Attribute) and isinstance(n.func.value, ast.Name) and n.func.value.id in ('self', 'cls'):
+                m = pb.resolve(n.func.attr)
+                if m is not None and m.cls is pb:
+                    decided.add(m.qualname)
+    return decided
+
+
 def cursor_writes(ctx, report):
     model = ctx.model
     evaluated = parse_parsable_tabulation(ctx, report)
+    evaluated |= binary_primitive_tabulation(ctx, report)
     for cname in ('ParserBase', 'ParserText', 'ParserBinary'):
         c = model.cls(cname)
         for name, f in c.methods.items():
